@@ -320,4 +320,195 @@ example : ((lateRun { dur := 40, trailing := true } (fun _ _ => 0) (f36 ++ [.tic
 example : (trunCode { dur := 40, trailing := true } (fun _ _ => 0) [.call, .next 0, .advance 3, .call, .next 1, .advance 40]).grants.map (·.t)
     = [0, 40] := by decide
 
+/-! ## 3. debounce when the goroutine of an expired timer starts late (finding F37) -/
+
+/-- the invariant of the late-start debounce system (repaired code) -/
+structure DLInv (wait : Nat) (s : DLState) : Prop where
+  tm : ∀ t ∈ s.timers, t.deadline = t.tc + wait ∧ (t.expired = true → t.deadline ≤ s.now)
+  fresh : ∀ t ∈ s.timers, t.id < s.nextId
+  /-- the current timer was created by the most recent call-or-cancel event, and that event is a call -/
+  cr : ∀ c, s.cur = some c → ∃ k, s.lastEv = some (k, true) ∧ ∀ t ∈ s.timers, t.id = c → t.idx = k
+  rn : ∀ r ∈ s.runs, r.lastAt = some (r.idx, true) ∧ r.tc + wait ≤ r.f
+
+theorem dlinv_init (wait : Nat) : DLInv wait {} where
+  tm := by intro t ht; cases ht
+  fresh := by intro t ht; cases ht
+  cr := by intro c hc; cases hc
+  rn := by intro r hr; cases hr
+
+theorem mem_stopCur {s : DLState} {t : Model.C20.LTimer} (h : t ∈ stopCur s) : t ∈ s.timers := by
+  unfold stopCur at h
+  cases hc : s.cur with
+  | none => rw [hc] at h; exact h
+  | some c => rw [hc] at h; exact (List.mem_filter.mp h).1
+
+theorem dlstep_inv {wait : Nat} {s : DLState} (e : DLEv) (h : DLInv wait s) : DLInv wait (dlstep true wait s e) := by
+  unfold dlstep
+  cases e with
+  | call =>
+    refine ⟨?_, ?_, ?_, h.rn⟩
+    · intro t ht
+      rcases List.mem_append.mp ht with ht | ht
+      · exact h.tm t (mem_stopCur ht)
+      · simp only [List.mem_singleton] at ht
+        subst ht
+        exact ⟨rfl, by intro hx; cases hx⟩
+    · intro t ht
+      rcases List.mem_append.mp ht with ht | ht
+      · have := h.fresh t (mem_stopCur ht)
+        show t.id < s.nextId + 1
+        omega
+      · simp only [List.mem_singleton] at ht
+        subst ht
+        show s.nextId < s.nextId + 1
+        omega
+    · intro c hc
+      have hc' : some s.nextId = some c := hc
+      cases hc'
+      refine ⟨s.n, rfl, ?_⟩
+      intro t ht hid
+      rcases List.mem_append.mp ht with ht | ht
+      · have := h.fresh t (mem_stopCur ht)
+        omega
+      · simp only [List.mem_singleton] at ht
+        subst ht
+        rfl
+  | cancel =>
+    refine ⟨fun t ht => h.tm t (mem_stopCur ht), fun t ht => h.fresh t (mem_stopCur ht), ?_, h.rn⟩
+    intro c hc
+    cases hc
+  | tick dt =>
+    refine ⟨?_, h.fresh, h.cr, h.rn⟩
+    intro t ht
+    obtain ⟨h1, h2⟩ := h.tm t ht
+    exact ⟨h1, fun hx => by have := h2 hx; show t.deadline ≤ s.now + dt; omega⟩
+  | expire id =>
+    refine ⟨?_, ?_, ?_, h.rn⟩
+    · intro t ht
+      obtain ⟨t0, ht0, rfl⟩ := List.mem_map.mp ht
+      obtain ⟨h1, h2⟩ := h.tm t0 ht0
+      by_cases hc : (t0.id == id && decide (t0.deadline ≤ s.now)) = true
+      · simp only [hc, if_true]
+        simp only [Bool.and_eq_true, decide_eq_true_eq] at hc
+        exact ⟨h1, fun _ => hc.2⟩
+      · simp only [hc, Bool.false_eq_true, if_false]
+        exact ⟨h1, h2⟩
+    · intro t ht
+      obtain ⟨t0, ht0, rfl⟩ := List.mem_map.mp ht
+      have := h.fresh t0 ht0
+      by_cases hc : (t0.id == id && decide (t0.deadline ≤ s.now)) = true
+      · simp only [hc, if_true]; exact this
+      · simp only [hc, Bool.false_eq_true, if_false]; exact this
+    · intro c hc
+      obtain ⟨k, hk, hall⟩ := h.cr c hc
+      refine ⟨k, hk, ?_⟩
+      intro t ht hid
+      obtain ⟨t0, ht0, rfl⟩ := List.mem_map.mp ht
+      by_cases hcnd : (t0.id == id && decide (t0.deadline ≤ s.now)) = true
+      · simp only [hcnd, if_true] at hid ⊢; exact hall t0 ht0 hid
+      · simp only [hcnd, Bool.false_eq_true, if_false] at hid ⊢; exact hall t0 ht0 hid
+  | start id =>
+    simp only
+    cases hf : s.timers.find? (fun t => t.id == id && t.expired) with
+    | none => exact ⟨h.tm, h.fresh, h.cr, h.rn⟩
+    | some t =>
+      have htm : t ∈ s.timers := List.mem_of_find?_eq_some hf
+      have hp := List.find?_some hf
+      simp only [Bool.and_eq_true, beq_iff_eq] at hp
+      have sub : ∀ t', t' ∈ s.timers.filter (fun t' => !(t'.id == id)) → t' ∈ s.timers :=
+        fun t' ht' => (List.mem_filter.mp ht').1
+      simp only [Bool.not_true, Bool.false_or]
+      by_cases hc : (s.cur == some id) = true
+      · simp only [hc, if_true]
+        refine ⟨fun t' ht' => h.tm t' (sub t' ht'), fun t' ht' => h.fresh t' (sub t' ht'), ?_, ?_⟩
+        · intro c hcc
+          obtain ⟨k, hk, hall⟩ := h.cr c hcc
+          exact ⟨k, hk, fun t' ht' hid => hall t' (sub t' ht') hid⟩
+        · intro r hr
+          rcases List.mem_append.mp hr with hr | hr
+          · exact h.rn r hr
+          · simp only [List.mem_singleton] at hr
+            subst hr
+            have hcur : s.cur = some id := by simpa using hc
+            obtain ⟨k, hk, hall⟩ := h.cr id hcur
+            obtain ⟨h1, h2⟩ := h.tm t htm
+            refine ⟨?_, ?_⟩
+            · show s.lastEv = some (t.idx, true)
+              rw [hk, hall t htm hp.1]
+            · show t.tc + wait ≤ s.now
+              have := h2 hp.2
+              omega
+      · simp only [hc, Bool.false_eq_true, if_false]
+        refine ⟨fun t' ht' => h.tm t' (sub t' ht'), fun t' ht' => h.fresh t' (sub t' ht'), ?_, h.rn⟩
+        intro c hcc
+        obtain ⟨k, hk, hall⟩ := h.cr c hcc
+        exact ⟨k, hk, fun t' ht' hid => hall t' (sub t' ht') hid⟩
+
+theorem DLInv.set_n {wait s} (h : DLInv wait s) (k : Nat) : DLInv wait { s with n := k } :=
+  ⟨h.tm, h.fresh, h.cr, h.rn⟩
+
+theorem dlrun_inv (wait : Nat) (evs : List DLEv) : DLInv wait (dlrun true wait evs) := by
+  have key : ∀ (evs : List DLEv) (s : DLState), DLInv wait s → DLInv wait (evs.foldl (dlstep true wait) s) := by
+    intro evs
+    induction evs with
+    | nil => intro s hs; exact hs
+    | cons e r ih => intro s hs; exact ih _ (dlstep_inv e hs)
+  exact key evs {} (dlinv_init wait)
+
+/-- **Debounce with late-starting goroutines (repaired code).**  Whenever the debounced function starts — however late
+the runtime expires the timer and however late the goroutine created for it gets to run — the most recent `call` or
+`cancel` event of the history is the very call that scheduled it (so: never after a cancel, never after a newer call),
+and at least `wait` has passed since that call. -/
+theorem dlate_runs_ok (wait : Nat) (evs : List DLEv) :
+    ∀ r ∈ (dlrun true wait evs).runs, r.lastAt = some (r.idx, true) ∧ r.tc + wait ≤ r.f :=
+  (dlrun_inv wait evs).rn
+
+/-- the position of the most recent `call` / `cancel` of a history, read off the history itself -/
+def lastCC : Nat → Option (Nat × Bool) → List DLEv → Option (Nat × Bool)
+  | _, acc, [] => acc
+  | k, _, .call :: r => lastCC (k + 1) (some (k, true)) r
+  | k, _, .cancel :: r => lastCC (k + 1) (some (k, false)) r
+  | k, acc, _ :: r => lastCC (k + 1) acc r
+
+/-- the ghost `lastEv` is what it claims to be (both versions of the code) -/
+theorem dl_lastEv (checked : Bool) (wait : Nat) (evs : List DLEv) :
+    (dlrun checked wait evs).lastEv = lastCC 0 none evs := by
+  have key : ∀ (evs : List DLEv) (s : DLState),
+      (evs.foldl (dlstep checked wait) s).lastEv = lastCC s.n s.lastEv evs := by
+    intro evs
+    induction evs with
+    | nil => intro s; rfl
+    | cons e r ih =>
+      intro s
+      simp only [List.foldl_cons]
+      rw [ih]
+      cases e with
+      | call => rfl
+      | cancel => rfl
+      | tick dt => rfl
+      | expire id => rfl
+      | start id =>
+        show lastCC (dlstep checked wait s (.start id)).n (dlstep checked wait s (.start id)).lastEv r = lastCC (s.n + 1) s.lastEv r
+        have h1 : (dlstep checked wait s (.start id)).n = s.n + 1 := by
+          unfold dlstep; simp only; split <;> (try split) <;> rfl
+        have h2 : (dlstep checked wait s (.start id)).lastEv = s.lastEv := by
+          unfold dlstep; simp only; split <;> (try split) <;> rfl
+        rw [h1, h2]
+  exact key evs {}
+
+/-- **F37**: with the code before the repair the function runs after `cancel()` has returned … -/
+theorem dlate_old_runs_after_cancel :
+    ((dlrun false 5 [.call, .tick 5, .expire 0, .cancel, .start 0]).runs.map fun r => (r.f, r.idx, r.lastAt))
+      = [(5, 0, some (3, false))] := by decide
+
+/-- … and a few instants after a newer call (the newer call at instant 6, position 4; the old function starts at 6) -/
+theorem dlate_old_runs_early :
+    ((dlrun false 5 [.call, .tick 5, .expire 0, .tick 1, .call, .start 0]).runs.map fun r => (r.f, r.idx, r.lastAt))
+      = [(6, 0, some (4, true))] := by decide
+
+/-- the repaired code on the same two histories: nothing runs; the newer call's own function runs at 11 -/
+example : (dlrun true 5 [.call, .tick 5, .expire 0, .cancel, .start 0]).runs = [] := by decide
+example : ((dlrun true 5 [.call, .tick 5, .expire 0, .tick 1, .call, .start 0, .tick 5, .expire 1, .start 1]).runs.map
+    fun r => (r.f, r.idx, r.lastAt)) = [(11, 4, some (4, true))] := by decide
+
 end GoguVerif.Theorems.C20Late
